@@ -140,6 +140,9 @@ def run_case(case, ctx):
                         ctx.count("skipped_near_tolerance")
                         return
                     truth = False
+    if not exact and not (gen.well_conditioned(ra.U, ra.W) and gen.well_conditioned(rb.U, rb.W)):
+        ctx.count("unjudged_float")
+        return
     rational = ra.W is not None or rb.W is not None
     kind = "rat" if rational else "poly"
     ctx.cls(f"{rel}|{kind}|{nt}|pA{ra.p}|pB{rb.p}|{'eq' if truth else 'ne'}")
